@@ -3,6 +3,7 @@
 mod errtree;
 mod c05;
 mod c06;
+mod c10;
 mod declgen;
 mod c11;
 mod c12;
@@ -26,6 +27,7 @@ fn main() {
         "C03" => errtree::run(&args, errtree::Mode::Spans),
         "C05" => c05::run(&args),
         "C06" => c06::run(&args),
+        "C10" => c10::run(&args),
         "C11" => c11::run(&args),
         "C12" => c12::run(&args),
         "C13" => c13::run(&args),
@@ -33,6 +35,21 @@ fn main() {
         "C15" => c15::run(&args),
         "C18" => c18::run(&args),
         "C19" => c19::run(&args),
+        "show" => {
+            // debugging aid: print what every derive returns for --input <decl>
+            let src = args.extra.get("input").cloned().unwrap_or_default();
+            let di: syn::DeriveInput = syn::parse_str(&src).expect("parses");
+            for (name, f) in c06::derives() {
+                match vfcommon::catch(|| f(&di)) {
+                    vfcommon::Caught::Ok(ts) => match c06::classify(ts.clone(), name) {
+                        Ok(cl) => println!("{name}: impls={} errors={:?}", cl.impls.len(), cl.errors),
+                        Err(e) => println!("{name}: {e}\n{ts}"),
+                    },
+                    vfcommon::Caught::Panic { msg, loc } => println!("{name}: PANIC {msg} at {loc}"),
+                }
+            }
+            0
+        }
         other => vfcommon::die(&format!("direct: no monitor for {other}")),
     };
     std::process::exit(code);
